@@ -130,7 +130,7 @@ ADDENDA = {
     "C05": " The fault sweeps (one throwing callable at every position, the n-th connect of a leaf throwing) also run in the exprnx build (rvalue connect noexcept, lvalue connect throwing), and repeat_effect_until is part of the alphabet.",
     "C06": " static_thread_pool is also destroyed right after an item was accepted; the condition-variable based contexts are explored once more with spurious wake-ups as budgeted deviations." + THREADED_ADDENDUM,
     "C07": " io_epoll_context and io_uring_context timers: three timers with every due-time combination, any one cancelled at once / at the first due time / at its own due time, optionally starting a further timer from its completion; spurious wake-ups as budgeted deviations for the condition-variable based contexts." + THREADED_ADDENDUM,
-    "C08": " Operation sequences over spawn / move-assign (including a sender nested after the close assigned over a live one) / destroy / await / close are enumerated as well." + THREADED_ADDENDUM,
+    "C08": " Operation sequences over spawn / move-assign (including a sender nested after the close assigned over a live one) / destroy / await / close are enumerated as well, and for the v1 and v0 scopes every sequence of up to 5 (thorough: 7) operations over {spawn A, spawn B, start complete(), start cleanup(), request_stop(), finish A, finish B} is executed against a reference model of closed / stopped / pending evaluated after every step (a stop request issued after the close must still reach outstanding work; every started join completes exactly once)." + THREADED_ADDENDUM,
     "C09": " The result also travels as a tracked payload whose n-th copy/move throws (constructions and destructions balanced, nothing destroyed that was never constructed) while the future is awaited or dropped concurrently." + THREADED_ADDENDUM,
     "C10": " Threaded variants race the completing thread, a stop requester and the task's scheduler (inline, one event-loop thread, an event loop run by two threads)." + THREADED_ADDENDUM,
     "C11": THREADED_ADDENDUM,
